@@ -162,7 +162,8 @@ func checkIPv6(data) (r)
 
 /*@
 module ownership
-props C10 C11 C12
+props C10 C11 C12 C18
+use nns names
 dialect neovm
 
 // C10/C11: NEP-11 accounting and transfer of names.
@@ -216,20 +217,7 @@ func parentExpired(ctx, first, fragments) (r)
     invariant i >= 0 && i < last ==> sfx(fragments, i) == fragments[i] ++ "." ++ name
     invariant forall j Int {sfx(fragments, j)} :: i < j && j <= last ==> okName(store, sfx(fragments, j))
 
-func checkFragment(v, isRoot) (r)
-  trusted
-  pure
-  ensures true
-
-func safeSplitAndCheck(name) (r, msg)
-  pure
-  ensures len(msg) == 0 ==> r == split(name, ".")
-  loop 0
-    invariant l == len(fragments) && fragments == split(name, ".")
-
-func splitAndCheck(name) (r)
-  pure
-  ensures r == split(name, ".")
+// (checkFragment, safeSplitAndCheck and splitAndCheck: contracts of module names)
 
 // C12: a name cannot be registered while its parent holds records for sub-names of it. The parent's records live under
 // 0x22 ++ ripemd160(parent); a record conflicts if its name is a proper extension "<labels>.<name>" of the name.
@@ -268,6 +256,8 @@ func saveDomain(ctx, name, email, refresh, retry, expire, ttl, owner)
 
 func Register(name, owner, email, refresh, retry, expire, ttl) (ok)
   requires store.has("\x00")
+  // only syntactically valid names get this far (C18); an invalid one faults, i.e. changes nothing
+  ensures [C18] validName(name)
   // a name is unavailable from its registration until its expiration time: nothing changes then
   ensures [C10] !ok ==> store == old(store) && notifs == old(notifs) && okName(old(store), name)
   ensures [C10] ok ==> !okName(old(store), name)
@@ -293,15 +283,21 @@ func Register(name, owner, email, refresh, retry, expire, ttl) (ok)
 // a name is available exactly when it (or one of its parents) is missing or expired, and the parent holds no conflicting record
 func IsAvailable(name) (r)
   pure
+  ensures [C18] validName(name)
   ensures [C10] r && old(store).has("\x20" ++ split(name, ".")[len(split(name, ".")) - 1]) ==> exists j Int :: 0 <= j && j < len(split(name, ".")) && !okName(store, sfx(split(name, "."), j))
   // unavailable while the name and its whole parent chain are registered and unexpired
   ensures [C10] old(store).has("\x20" ++ split(name, ".")[len(split(name, ".")) - 1]) &&
         (forall j Int {sfx(split(name, "."), j)} :: 0 <= j && j < len(split(name, ".")) ==> okName(store, sfx(split(name, "."), j))) ==> !r
+
+// a TLD is a valid name of a single label (C18)
+func RegisterTLD(name, email, refresh, retry, expire, ttl)
+  ensures [C18] validName(name) && len(split(name, ".")) == 1
 @*/
 
 /*@
 module records
-props C12
+props C12 C18
+use nns names
 dialect neovm
 
 // C12: the record store. Key layout 0x22 ++ ripemd160(token) ++ ripemd160(name) ++ type ++ id.
@@ -310,11 +306,28 @@ pure rprefix(t Bytes, n Bytes, ty Int) Bytes = "\x22" ++ ripemd160(t) ++ ripemd1
 pure rkey(t Bytes, n Bytes, ty Int, id Int) Bytes = rprefix(t, n, ty) ++ byte(id)
 pure skey_(t Bytes) Bytes = rkey(t, t, 6, 0)
 
-func checkRecord(ctx, name, typ, data) (r)
+// C18: record data accepted per type: A = 1, CNAME = 5, TXT = 16, AAAA = 28 (predicates of module names)
+pure recordOK(typ Int, data Bytes) Bool = (typ == 1 ==> ipv4(data)) && (typ == 5 ==> validName(data))
+     && (typ == 16 ==> len(data) <= 255) && (typ == 28 ==> ipv6(data))
+
+func tokenIDFromName(ctx, name) (r)
   trusted
+  pure
+  ensures r == tokenOf(store, name) && !isnil(r)
+
+func getFragmentedNameState(ctx, tokenID, fragments) (r)
+  trusted
+  pure
+
+func (n NameState) checkAdmin()
+  trusted
+  pure
+
+func checkRecord(ctx, name, typ, data) (r)
   pure
   ensures r == tokenOf(old(store), name) && !isnil(r)
   ensures typ == 1 || typ == 5 || typ == 16 || typ == 28
+  ensures [C18] recordOK(typ, data)
 
 func storeRecord(ctx, tokenId, name, typ, id, data)
   ensures [C12] store.has(rkey(tokenId, name, typ, id))
@@ -328,6 +341,7 @@ func updateSoaSerial(ctx, tokenId)
   ensures notifs == old(notifs)
 
 func AddRecord(name, typ, data)
+  ensures [C18] recordOK(typ, data)
   // at most 16 records per (name, type), at most one CNAME
   ensures [C12] cnt(old(store), rprefix(tokenOf(old(store), name), name, typ)) <= 15
   ensures [C12] typ == 5 ==> cnt(old(store), rprefix(tokenOf(old(store), name), name, typ)) == 0
@@ -349,6 +363,7 @@ func AddRecord(name, typ, data)
         !(deser_RecordState(store.get($it.key(j))).Name == name && deser_RecordState(store.get($it.key(j))).Type == typ && deser_RecordState(store.get($it.key(j))).Data == data)
 
 func SetRecord(name, typ, id, data)
+  ensures [C18] recordOK(typ, data)
   // replaces exactly the record at that index, which must exist
   ensures [C12] old(store).has(rkey(tokenOf(old(store), name), name, typ, id))
   ensures [C12] deser_RecordState(store.get(rkey(tokenOf(old(store), name), name, typ, id))) == RecordState{name, typ, data, id}
